@@ -3,7 +3,7 @@ compiled kernel, at and beyond the boundary shapes / values / options of the pro
 quantifier.  Each case is (function label, code).  The snippets run in the namespace of
 harness/props/c05_aworker.py (np, pd, nan, inf, dutils, qualitycontrol, signatures,
 metrics, armodels, sutils, hygrid, gutils, Grid, Catchment, c_hydrodiy_*, mkgrid, mkcat,
-series)."""
+series, attempt)."""
 
 NANS = "nan"
 
@@ -505,7 +505,7 @@ def catchment_cases(rng, quick):
             for nval in sorted({ncells - 1, ncells, ncells + 1, ncells + 2, max(0, ncells // 2)}):
                 if nval >= 0:
                     da = f"c = {cat}; c.delineate_area({outlet}{inl or ', None'}, {nval}); "
-                    C.append(("delineate_area", da + "c.delineate_boundary(); c.compute_flowpathlengths()"))
+                    C.append(("delineate_area", da + "attempt(c.delineate_boundary); c.compute_flowpathlengths()"))
                     C.append(("intersect", da + f"c.intersect({gh}, True)"))
             # --- every method that sizes a buffer from the area / the filled area
             C.append(("delineate_boundary", pre + "c.delineate_boundary()"))
@@ -520,7 +520,7 @@ def catchment_cases(rng, quick):
             # --- derived catchments: stored representation, copies, unions and differences
             C.append(("intersect", pre + f"d = Catchment.from_dict(c.to_dict()); d.intersect({gh}, True); "
                                          f"d.intersect({g1}, False); d.delineate_boundary()"))
-            C.append(("intersect", pre + f"d = c.clone(); d.delineate_boundary(); d.intersect({gh}, True)"))
+            C.append(("intersect", pre + f"d = c.clone(); attempt(d.delineate_boundary); d.intersect({gh}, True)"))
             # a second catchment on the same flow direction grid (another outlet), then the union
             # and the differences: the area is replaced, the filled area is the first operand's
             o2 = next((i for i, x in enumerate(fd) if x and i != outlet), outlet)
@@ -657,7 +657,7 @@ def size_cases(rng, quick):
     for n in ([120] if quick else [120, 400]):
         whole = (f"fd = np.ones(({n}, {n}), dtype=np.int64); fd[:, -1] = 4; fd[-1, -1] = 0; c = mkcat({n}, {n}, fd); "
                  f"c.delineate_area({n * n - 1}); ")
-        C.append(("delineate_area", whole + "c.delineate_boundary(); c.compute_flowpathlengths()"))
+        C.append(("delineate_area", whole + "attempt(c.delineate_boundary); c.compute_flowpathlengths()"))
         for filled in (False, True):
             C.append(("intersect", whole + f"c.intersect(mkgrid({n // 8 + 2}, {n // 8 + 2}, None, np.float64, 10., -5., -5.), {filled})"))
             C.append(("intersect", whole + f"c.intersect(mkgrid({n // 2}, {2 * n + 3}, None, np.float64, 0.5, -1., -1.), {filled})"))
@@ -675,6 +675,128 @@ def size_cases(rng, quick):
     return C
 
 
+# ---------------------------------------------------------------------------
+# coordinates on the edges of a grid, entry points that reach a kernel through another
+# method, and objects that are used again after a setter / an earlier call
+
+def edge_cases(rng, quick):
+    """Coordinates exactly on the four edges / corners of the grid and one unit in the last
+    place on either side of them (the range test of c_coord2cell decides between a cell and
+    'outside'), cell centres and cell borders; second grids whose outer edges pass exactly
+    through the centres or the borders of the catchment's cells."""
+    C = []
+    geoms = [(3, 4, 1., 0., 0.), (4, 3, 0.25, 10.5, -3.), (2, 5, 0.1, -0.3, 0.7), (1, 1, 3., 1e6, -1e6)]
+    for nr, nc, csz, xll, yll in geoms:
+        g = f"mkgrid({nr}, {nc}, list(range({nr * nc})), np.float64, {csz!r}, {xll!r}, {yll!r})"
+        xs = [xll, xll + nc * csz, xll + csz, xll + (nc - 1) * csz, xll + csz / 2, xll + (nc - 0.5) * csz]
+        ys = [yll, yll + nr * csz, yll + csz, yll + (nr - 1) * csz, yll + csz / 2, yll + (nr - 0.5) * csz]
+        pts = []
+        for x in xs:
+            for y in ys:
+                pts.append(f"[{x!r}, {y!r}]")
+        base = "np.array([" + ", ".join(pts) + "])"
+        for expr in (base, f"np.nextafter({base}, np.inf)", f"np.nextafter({base}, -np.inf)",
+                     f"np.nextafter({base}, np.inf) + np.array([0., -1e-300])", f"{base} * (1 + 2e-16)"):
+            C.append(("coord2cell", f"{g}.coord2cell({expr})"))
+            C.append(("slice", f"{g}.slice({expr})"))
+            C.append(("voronoi", f"c = mkcat({nr}, {nc}, {[1] * (nr * nc - 1) + [0]!r}, {csz!r}, {xll!r}, {yll!r}); "
+                                 f"c.delineate_area({nr * nc - 1}); hygrid.voronoi(c, {expr})"))
+        C.append(("clip", f"{g}.clip({xll!r}, {yll!r}, {xll + nc * csz!r}, {yll + nr * csz!r})"))
+        C.append(("clip", f"{g}.clip({xll + csz / 2!r}, {yll + csz / 2!r}, {xll + (nc - 0.5) * csz!r}, {yll + (nr - 0.5) * csz!r})"))
+        C.append(("clip", f"{g}.clip({xll + nc * csz!r}, {yll + nr * csz!r}, {xll!r}, {yll!r})"))
+        C.append(("clip", f"{g}.clip({xll - csz!r}, {yll - csz!r}, {xll + 100 * csz!r}, {yll + 100 * csz!r})"))
+        C.append(("clip", f"{g}.clip(nan, {yll!r}, inf, 1e300)"))
+    # second grids aligned on the centres / the borders of the cells of a catchment with a hole
+    nr, nc = 7, 8
+    ring = tree_flowdir(nr, nc, rect(1, 5, 1, 6) - rect(2, 4, 2, 5), (5, 3))
+    for csz, xll, yll in ((1., 0., 0.), (0.25, 10.5, -3.)):
+        pre = f"c = mkcat({nr}, {nc}, {ring!r}, {csz!r}, {xll!r}, {yll!r}); c.delineate_area({5 * nc + 3}, None, 70); "
+        for ratio in (1., 0.5, 2.):
+            for off in (0., 0.5, 1., 1.5):
+                for n0, n1 in ((nr, nc), (nr - 1, nc - 1), (int(nr / ratio), int(nc / ratio)), (int(nr / ratio) + 1, int(nc / ratio) + 1)):
+                    gg = f"mkgrid({n0}, {n1}, None, np.float64, {csz * ratio!r}, {xll + off * csz!r}, {yll + off * csz!r})"
+                    for filled in (False, True):
+                        C.append(("intersect", pre + f"c.intersect({gg}, {filled})"))
+    if quick:
+        C = [x for i, x in enumerate(C) if x[0] != "intersect" or i % 3 == rng.randrange(3)]
+    return C
+
+
+def indirect_cases(rng, quick):
+    """Grid / Catchment methods and package functions that reach a kernel through another
+    method: xvalues, yvalues, clip, cells_inside_polygon, compute_area, isin, goue, alpha."""
+    C = []
+    for nr, nc in ((0, 0), (1, 1), (3, 4), (1, 5), (5, 1), (0, 3)):
+        g = f"mkgrid({nr}, {nc}, None, np.float64, 0.5, 1., 2.)"
+        C.append(("xvalues", f"{g}.xvalues"))
+        C.append(("yvalues", f"{g}.yvalues"))
+        for po in ("np.array([[0., 0.], [4., 0.], [4., 4.], [0., 4.]])", "np.zeros((0, 2))", "np.array([[1., 2.]])",
+                   "np.array([[nan, 0.], [4., 0.], [4., inf]])", "np.zeros((3, 3))", "np.array([[1.2, 2.2], [1.3, 2.2], [1.3, 2.3]])"):
+            C.append(("cells_inside_polygon", f"{g}.cells_inside_polygon({po})"))
+            C.append(("cells_inside_polygon", f"{g}.cells_inside_polygon({po}, atol=0.)"))
+    for name, nr, nc, fd, outlet, inlets, ncells in topologies(rng, 0)[:9:2]:
+        pre = f"c = mkcat({nr}, {nc}, {fd!r}); c.delineate_area({outlet}, {inlets!r}, {nr * nc + 3}); c.delineate_boundary(); "
+        C.append(("compute_area", pre + "c.compute_area(lambda x, y: (1000. * x, 1000. * y))"))
+        C.append(("compute_area", pre + "c.compute_area(lambda x, y: (x, y), lambda x, y: (nan, y))"))
+        C.append(("isin", pre + f"[c.isin(k, f) for k in (-1, 0, {outlet}, {nr * nc}) for f in (False, True)]"))
+    for n in (0, 1, 2, 5, 40):
+        for v in float_vectors(rng, n)[:3]:
+            idx = sorted(rng.randint(0, 3) for _ in range(n))
+            C.append(("goue", f"signatures.goue({arr(idx, 'int')}, {arr(v, 'float')})"))
+        for p_ in (1, 2, 7):
+            ens = mat(rng, n, p_, rng.choice([0, 1, 2]))
+            obs = [rng.uniform(0, 5) for _ in range(n)]
+            C.append(("alpha", f"metrics.alpha({arr(obs, 'float')}, {mat_lit(ens, p_)}, type='AD')"))
+    return C
+
+
+def history_cases(rng, quick):
+    """One object, several calls: a catchment delineated again (larger, smaller, failing for
+    want of room, empty), grids whose data / dtype / limits / geometry attributes were set after
+    construction (accumulate and slope set the dtype of their arguments in place), results of
+    one call handed to the next."""
+    C = []
+    tops = {t[0]: t for t in topologies(rng, 0)}
+    for a, b in (("ring", "ring"), ("thick-ring", "two-holes"), ("enclosed-inlet", "enclosed-no-inlet"),
+                 ("edge-ring", "whole-grid")):
+        _, nr, nc, fd, outlet, inlets, ncells = tops[a]
+        gh = f"mkgrid({2 * nr + 5}, {2 * nc + 5}, None, np.float64, 0.5, -1., -1.)"
+        other = next(i for i, x in enumerate(fd) if x and i != outlet)
+        for seq in (f"c.delineate_area({outlet}, {inlets!r}, 100); attempt(c.delineate_boundary); c.delineate_area({other}, None, 100); ",
+                    f"c.delineate_area({other}, None, 100); attempt(c.delineate_boundary); c.delineate_area({outlet}, {inlets!r}, 100); ",
+                    f"c.delineate_area({outlet}, {inlets!r}, 100); c.compute_flowpathlengths(); "
+                    f"attempt(c.delineate_area, {outlet}, None, 2); ",
+                    f"c.delineate_area({outlet}, {inlets!r}, 100); c.delineate_area({nr * nc - 1 if fd[nr * nc - 1] == 0 else 0}, None, 100); ",
+                    f"c.delineate_area({outlet}, {inlets!r}, 100); c.flowdir.data[:] = 0; "):
+            for tail in (f"c.intersect({gh}, True)", f"c.intersect({gh}, False)", "c.delineate_boundary(); c.extent()",
+                         "c.compute_flowpathlengths()", f"hygrid.voronoi(c, np.array([[1., 1.], [3., 2.]]))",
+                         f"attempt(c.delineate_boundary); attempt(c.intersect, {gh}, True); c.compute_flowpathlengths()"):
+                C.append(("catchment-history", f"c = mkcat({nr}, {nc}, {fd!r}); " + seq + tail))
+    fd = [1, 1, 1, 4, 1, 1, 1, 4, 1, 1, 1, 0]
+    g = "g = mkgrid(3, 4, %r, %s); " % (fd, "np.float64")
+    for setter in ("g.dtype = np.int32; ", "g.data = np.arange(12.).reshape(3, 4)[:, ::-1]; ", "g.data = np.asfortranarray(np.ones((3, 4))); ",
+                   "g.mindata = 1; ", "g.maxdata = 3; ", "g.nodata = -9999; ", "g.fill(4); ", "g[11] = 7; ", "g.ncols = 6; ", "g.nrows = 2; ",
+                   "g.ncols, g.nrows = 3, 4; ", "g.cellsize = 0.; ", "g.cellsize = -1.; ", "g.xllcorner = nan; ", "g.data = np.ones((4, 3)); ",
+                   "g = g.clone(np.int64); ", "g = Grid.from_dict(g.to_dict()); ", "g = g.clip(0.5, 0.5, 2.5, 2.5); ",
+                   "g = g.apply(lambda x: x[:2, :3]); ", "g._data = g._data[:, ::2]; "):
+        for tail in ("g.slice([[0.5, 0.5], [3.5, 2.5], [1.2, 1.7]])", "g.coord2cell([[0.5, 0.5], [3.5, 2.5], [5.5, 0.5]])",
+                     "g.cell2coord([0, 5, 11, 17])", "g.cell2rowcol([0, 5, 11, 17])", "g.neighbours(5); g.neighbours(11)",
+                     "hygrid.accumulate(g); hygrid.accumulate(g, g)", "hygrid.slope(g, g); hygrid.slope(g, mkgrid(3, 4))",
+                     "hygrid.delineate_river(g, 0); hygrid.delineate_river(g, 0, 3)",
+                     "c = Catchment('c', g); c.delineate_area(11, None, 50); attempt(c.delineate_boundary); "
+                     "attempt(c.intersect, mkgrid(9, 9, None, np.float64, 0.5, -0.2, -0.2), True); c.upstream([0, 11]); c.downstream([0, 11])",
+                     "c = mkcat(3, 4, %r); c.delineate_area(11, None, 50); c.intersect(g, True); c.intersect(g)" % (fd,),
+                     "g.xvalues; g.yvalues; g.cells_inside_polygon(np.array([[0., 0.], [4., 0.], [4., 4.]]))"):
+            C.append(("grid-history", g + setter + tail))
+    # the arguments of accumulate / slope are converted in place: call again with the same objects
+    C.append(("grid-history", "f = mkgrid(3, 4, %r, np.float32); a = mkgrid(3, 4, list(range(12)), np.int32); "
+                              "hygrid.accumulate(f, a); hygrid.slope(f, a); hygrid.accumulate(f, a, 0, 2); hygrid.slope(a, f, 0)" % (fd,)))
+    if quick:
+        C = [x for i, x in enumerate(C) if i % 2 == rng.randrange(2)]
+    return C
+
+
 def all_cases(rng, quick):
     return data_cases(rng, quick) + stat_cases(rng, quick) + gis_cases(rng, quick) + catchment_cases(rng, quick) \
-        + layout_cases(rng, quick) + size_cases(rng, quick)
+        + layout_cases(rng, quick) + size_cases(rng, quick) + edge_cases(rng, quick) \
+        + indirect_cases(rng, quick) + history_cases(rng, quick)
